@@ -37,7 +37,8 @@ ASSUMPTIONS = [
 ]
 REQUIRED = {"all": ["set_calls", "clear_calls", "positions_zero_or_negative", "positions_beyond_end", "positions_non_sty",
                     "positions_duplicate", "distribution_checked", "distributions_over_9_or_more_sites", "position_lists_that_look_like_a_mask", "positions_beyond_64_bits", "shuffled_copies_of_objects_with_sites", "requests_naming_all_held_sites_in_another_order", "second_handles_on_objects_with_sites", "distributions_after_resetting_the_same_sites_in_another_order", "kappa_after_checked", "kappa_after_with_cached_dmax",
-                    "clear_then_phosphosequence", "out_of_order_sites", "long_ignored_position_histories"]}
+                    "clear_then_phosphosequence", "out_of_order_sites", "long_ignored_position_histories",
+                    "single_requests_with_dozens_of_ignored_positions_before_valid_ones", "equal_sized_site_sets_one_after_another"]}
 NWORDS = {"quick": 400, "thorough": 5000}
 
 
@@ -206,6 +207,43 @@ def judge(case, rep, S):
         word.append(("set", "list", "130 out-of-range positions"))
         if not check_state(rep, S, obj, seq, model, all_sty, word, rng):
             return
+    r3 = gen.sub_rng(case["o"] ^ 0x3C3C, ID)          # a generator of its own: the streams of the ordinary steps stay what they were
+    if case["o"] % 10 == 1 and all_sty:
+        # ONE request that starts with dozens of positions to be ignored and names real sites only afterwards / in between
+        rep.cnt("single_requests_with_dozens_of_ignored_positions_before_valid_ones")
+        junk = [r3.choice([0, -1, -N, N + 1, N + 7, 3 * N, -2]) for _ in range(r3.choice([21, 25, 40, 64, 100]))]
+        good = r3.sample(all_sty, min(len(all_sty), r3.randint(1, 4)))
+        pos = junk + good
+        if r3.random() < 0.5:
+            pos.insert(r3.randrange(len(junk)), r3.choice(all_sty))
+        try:
+            obj.set_phosphosites(list(pos))
+        except Exception as e:
+            rep.viol("set_raised", "set_phosphosites(%r) raised %s: %s on %s" % (pos, type(e).__name__, e, seq), sig={"exception": type(e).__name__})
+            return
+        for p_ in pos:
+            if 1 <= p_ <= N and seq[p_ - 1] in "STY" and p_ not in model:
+                model.append(p_)
+        word.append(("set", "list", "%d out-of-range positions, then %r" % (len(junk), good)))
+        if not check_state(rep, S, obj, seq, model, all_sty, word, rng) or not kappa_after_now(rep, S, obj, seq, model, word):
+            return
+    if case["o"] % 10 == 2 and len(all_sty) >= 2:
+        # sites A, the phospho-queries, clear, then DIFFERENT sites B of the same number: nothing of A may survive in the answers
+        k_ = r3.randint(1, max(1, len(all_sty) // 2))
+        for _round in range(3):
+            A = r3.sample(all_sty, k_)
+            obj.set_phosphosites(A)
+            word.append(("set", "list", A))
+            if not kappa_after_now(rep, S, obj, seq, A, word):
+                return
+            obj.get_phosphosequence()
+            if k_ <= 4:
+                obj.get_full_phosphostatus_kappa_distribution()
+            obj.clear_phosphosites()
+            word.append(("clear",))
+        rep.cnt("equal_sized_site_sets_one_after_another")
+        if not check_state(rep, S, obj, seq, model, all_sty, word, rng):
+            return
     for step in range(rng.randint(1, 12)):
         r = rng.random()
         if r < 0.55:
@@ -280,6 +318,27 @@ def judge(case, rep, S):
         rep.distinct((seq, repr(word)))
     if rep.evaluations % 60 == 1:
         rep.sample({"sequence": seq, "operations": word, "final_sites": model})
+
+
+def kappa_after_now(rep, S, obj, seq, model, word):
+    """kappa after phosphorylation and the phosphosequence against a fresh object - always, no random choice."""
+    want_pseq = "".join("E" if (i + 1) in model else c for i, c in enumerate(seq))
+    ctx = "after %r on %s" % (word[-6:], seq)
+    if list(obj.get_phosphosites()) != list(model):
+        rep.viol("site_list", "get_phosphosites()=%r, model says %r %s" % (obj.get_phosphosites(), model, ctx), sig={"deterministic_history": True})
+        return False
+    pseq = obj.get_phosphosequence()
+    if pseq != want_pseq:
+        rep.viol("phosphosequence", "get_phosphosequence()=%r but the sites %r give %r %s" % (pseq, model, want_pseq, ctx))
+        return False
+    ka = obj.get_kappa_after_phosphorylation()
+    kf = S["SP"](want_pseq).get_kappa()
+    rep.cnt("kappa_after_checked")
+    if not M.close(ka, kf):
+        rep.viol("kappa_after", "get_kappa_after_phosphorylation()=%r but kappa of %s is %r (sites %r) %s" % (ka, want_pseq, kf, model, ctx),
+                 sig={"dmax_cached": False})
+        return False
+    return True
 
 
 def check_state(rep, S, obj, seq, model, all_sty, word, rng):
